@@ -6,6 +6,8 @@ pub mod common;
 pub mod lin;
 pub mod conv;
 pub mod dec;
+#[cfg(not(kani))]
+pub mod algreplay;
 
 pub fn registry() -> Vec<(&'static str, fn())> {
     let mut v = Vec::new();
